@@ -19,6 +19,9 @@ for d in sorted(glob.glob("/verif/seeded/*")):
     also = [o for o, v in (m.get("also_checked") or {}).items() if v.get("exit") == 1]
     if tier == "MISSED" and also:
         tier = "not by `./check %s`; by `./check %s quick`" % (m["breaks_property"], "`, `./check ".join(also) + "")
+    oor = json.load(open("/verif/seeded/out_of_reach.json")) if os.path.exists("/verif/seeded/out_of_reach.json") else {}
+    if tier == "MISSED" and os.path.basename(d) in oor:
+        tier = "**not caught** (out of reach, see below)"
     kind = ""
     if tier.startswith("not by"):
         for o in also:
